@@ -125,3 +125,22 @@ package fox
 //@   requires fox != nil && fn != nil && published[&fox.tree] != nil && panicking == nil
 //@   modifies heap, snapRef
 //@   ensures nolock: held[&fox.mu] == old(held[&fox.mu]) && lockOps[&fox.mu] == old(lockOps[&fox.mu]) && pubCount[&fox.tree] == old(pubCount[&fox.tree]) && published[&fox.tree] == old(published[&fox.tree])
+
+//@ -- a snapshot of a transaction is a read-only view: it can never publish or unlock
+//@ func (*Txn).Snapshot props C04,C03
+//@   requires txn != nil
+//@   modifies txn.rootTxn.writable, snapRef
+//@   ensures settled: txn.rootTxn == nil ==> result == nil
+//@   ensures readonly: txn.rootTxn != nil ==> result != nil && fresh(result) && !result.write && result.fox == txn.fox && result.rootTxn != nil && fresh(result.rootTxn) && result.rootTxn.root == txn.rootTxn.root && result.rootTxn.size == txn.rootTxn.size
+
+//@ func (*Txn).Len props C04,C02
+//@   requires txn != nil
+//@   panics-when txn.rootTxn == nil
+//@   ensures result == txn.rootTxn.size
+
+//@ func (*Txn).Truncate props C04,C02 partial
+//@   requires txn != nil
+//@   panics-when txn.rootTxn == nil
+//@   modifies txn.rootTxn.root, txn.rootTxn.size
+//@   ensures readonly: !txn.write ==> result == ErrReadOnlyTxn && txn.rootTxn.root == old(txn.rootTxn.root) && txn.rootTxn.size == old(txn.rootTxn.size)
+//@   ensures ok: txn.write ==> result == nil
